@@ -59,6 +59,7 @@ func filterCase(c *run.Ctx) run.Result {
 	if v3 := o.im.namesOfArity(3); len(v3) > 0 {
 		o.checkCrop(pickV3(o, v3))
 	}
+	o.checkFilterSequences()
 	o.finish(true)
 	return res
 }
@@ -161,6 +162,18 @@ func (o *opctx) keepPoints(site, key string, pred func([]float64) bool, out *ref
 		o.violate("corner-mismatch", site, fmt.Sprintf("exactly the %d of %d points whose %s satisfies the predicate must survive, in order, with all their attributes: %s",
 			len(want), len(in), key[2:], d), extra...)
 		return
+	}
+	// the dropped points must be gone from the result, not merely unreferenced: the vertex
+	// arrays of a point cloud are what ToPointCloud and the writers see
+	refd := make([]bool, om.L)
+	for _, v := range out.Indices {
+		refd[v] = true
+	}
+	for v, b := range refd {
+		if !b {
+			o.violate("unreferenced-vertex-left", site, fmt.Sprintf("the %d surviving points are right, but vertex %d of the result (%d vertices) is referenced by no point: dropped points are still in the vertex arrays", len(got), v, om.L), extra...)
+			return
+		}
 	}
 	kept, dropped := len(want), len(in)-len(want)
 	o.res.Count("corners_compared", int64(kept))
